@@ -149,7 +149,7 @@ pub struct Rendezvous {
 
 pub struct SimInner {
     pub rv: Mutex<Rendezvous>,
-    pub rv_cv: parking_lot::Condvar,
+    pub rv_gen: std::sync::atomic::AtomicU64,
     pub state: Mutex<SimState>,
     locker: InMemoryFileSystem,
     pub sink: Mutex<Option<Arc<TraceSink>>>,
@@ -201,7 +201,7 @@ impl SimFs {
         SimFs {
             inner: Arc::new(SimInner {
                 rv: Mutex::new(Rendezvous::default()),
-                rv_cv: parking_lot::Condvar::new(),
+                rv_gen: std::sync::atomic::AtomicU64::new(0),
                 state: Mutex::new(SimState {
                     disk,
                     journal: vec![],
@@ -245,9 +245,11 @@ impl SimFs {
         rv.need = need;
         rv.arrived = 0;
         rv.generation += 1;
+        self.inner
+            .rv_gen
+            .store(rv.generation, std::sync::atomic::Ordering::Release);
         rv.timeout_ms = timeout_ms;
         rv.met = 0;
-        self.inner.rv_cv.notify_all();
         met
     }
 
@@ -296,24 +298,35 @@ impl SimFs {
 }
 
 impl SimInner {
-    /// Must be called WITHOUT the state lock.
+    /// Must be called WITHOUT the state lock. The waiting side spins (no condition variable):
+    /// the threads that met continue within nanoseconds of each other.
     fn rendezvous(&self, class: &'static str) {
-        let mut rv = self.rv.lock();
-        if rv.need < 2 || rv.class != class {
-            return;
+        let gen;
+        let deadline;
+        {
+            let mut rv = self.rv.lock();
+            if rv.need < 2 || rv.class != class {
+                return;
+            }
+            rv.arrived += 1;
+            if rv.arrived >= rv.need {
+                rv.arrived = 0;
+                rv.generation += 1;
+                rv.met += 1;
+                self.rv_gen
+                    .store(rv.generation, std::sync::atomic::Ordering::Release);
+                return;
+            }
+            gen = rv.generation;
+            deadline =
+                std::time::Instant::now() + std::time::Duration::from_millis(rv.timeout_ms);
         }
-        rv.arrived += 1;
-        if rv.arrived >= rv.need {
-            rv.arrived = 0;
-            rv.generation += 1;
-            rv.met += 1;
-            self.rv_cv.notify_all();
-            return;
-        }
-        let gen = rv.generation;
-        let deadline = std::time::Instant::now() + std::time::Duration::from_millis(rv.timeout_ms);
-        while rv.generation == gen {
-            if self.rv_cv.wait_until(&mut rv, deadline).timed_out() {
+        let mut spins = 0u32;
+        while self.rv_gen.load(std::sync::atomic::Ordering::Acquire) == gen {
+            std::hint::spin_loop();
+            spins = spins.wrapping_add(1);
+            if spins % 1024 == 0 && std::time::Instant::now() > deadline {
+                let mut rv = self.rv.lock();
                 if rv.generation == gen {
                     rv.arrived = rv.arrived.saturating_sub(1);
                 }
